@@ -116,14 +116,14 @@ VH_CMD(chainnav)
         for (int i = 1; i < n; ++i) {
             int par;
             if (rng.chance(ext, 100)) {
-                const size_t k = rng.below(tips.size());
+                const size_t k = rng.chance(3, 4) ? 0 : rng.below(tips.size()); // tips[0] is the main line: trees get thousands of blocks tall
                 par = tips[k];
                 tips[k] = i;
                 t.add(par, TreeBits(rng));
             } else {
                 par = rng.chance(1, 2) ? static_cast<int>(rng.below(i)) : std::max(0, i - 1 - static_cast<int>(rng.below(30)));
                 t.add(par, TreeBits(rng));
-                if (tips.size() < 5) tips.push_back(i); else tips[rng.below(tips.size())] = i;
+                if (tips.size() < 5) tips.push_back(i); else tips[1 + rng.below(tips.size() - 1)] = i;
             }
         }
         auto blk = [&](int i) -> CBlockIndex* { return t.blocks[i].get(); };
